@@ -53,7 +53,8 @@ async fn close_writer(w: &mut cacache::Writer) -> std::io::Result<()> {
 }
 
 async fn async_writer(req: &Value) -> R {
-    let cache = s(req, "cache");
+    let cache_pb = pth(req, "cache");
+    let cache = cache_pb.as_path();
     let opts_v = req.get("opts");
     let chunks = chunks_of(req);
     let flush_after = usize_list(req, "flush_after");
@@ -147,7 +148,8 @@ thread_local! {
 
 async fn async_handle(req: &Value) -> R {
     let wid = s(req, "wid").to_string();
-    let cache = s(req, "cache");
+    let cache_pb = pth(req, "cache");
+    let cache = cache_pb.as_path();
     match s(req, "op") {
         "wh_open" => {
             let opts_v = req.get("opts");
@@ -207,7 +209,8 @@ async fn async_handle(req: &Value) -> R {
 }
 
 async fn async_reader(req: &Value) -> R {
-    let cache = s(req, "cache");
+    let cache_pb = pth(req, "cache");
+    let cache = cache_pb.as_path();
     let mut r = if has(req, "key") {
         cacache::Reader::open(cache, s(req, "key")).await
     } else {
@@ -221,7 +224,14 @@ async fn async_reader(req: &Value) -> R {
     let mut out = Vec::new();
     let mut i = 0usize;
     let mut reads = 0u64;
+    let to_end_after = req.get("to_end_after").and_then(|x| x.as_u64());
     loop {
+        if to_end_after == Some(reads) {
+            r.read_to_end(&mut out)
+                .await
+                .map_err(|e| staged(ioerr_json(&e), "read_to_end"))?;
+            break;
+        }
         let sz = bufs[i % bufs.len()];
         i += 1;
         let mut b = vec![0u8; sz];
@@ -245,8 +255,10 @@ async fn async_reader(req: &Value) -> R {
 }
 
 async fn async_linker(req: &Value) -> R {
-    let cache = s(req, "cache");
-    let target = s(req, "target");
+    let cache_pb = pth(req, "cache");
+    let cache = cache_pb.as_path();
+    let target_pb = pth(req, "target");
+    let target = target_pb.as_path();
     let via = if has(req, "via") { s(req, "via") } else { "fn" };
     let keyed = has(req, "key");
     if via == "fn" {
@@ -280,6 +292,11 @@ async fn async_linker(req: &Value) -> R {
             .map_err(|e| staged(ioerr_json(&e), "read"))?;
         got.extend_from_slice(&b[..n]);
     }
+    if req.get("then_to_end").and_then(|x| x.as_bool()).unwrap_or(false) {
+        l.read_to_end(&mut got)
+            .await
+            .map_err(|e| staged(ioerr_json(&e), "read_to_end"))?;
+    }
     if s(req, "final") == "drop" {
         drop(l);
         return Ok(json!({"dropped":true,"read":put_data(&got)}));
@@ -290,7 +307,8 @@ async fn async_linker(req: &Value) -> R {
 
 pub async fn exec_async(req: &Value) -> R {
     let op = s(req, "op");
-    let cache = s(req, "cache");
+    let cache_pb = pth(req, "cache");
+    let cache = cache_pb.as_path();
     let ce = |e: cacache::Error| err_json(&e);
     match op {
         "write" => {
@@ -322,35 +340,35 @@ pub async fn exec_async(req: &Value) -> R {
             .map(|d| json!({"data":put_data(&d)}))
             .map_err(ce),
         "reader" => async_reader(req).await,
-        "copy" => cacache::copy(cache, s(req, "key"), s(req, "to"))
+        "copy" => cacache::copy(cache, s(req, "key"), pth(req, "to"))
             .await
             .map(|n| json!({"n":n}))
             .map_err(ce),
-        "copy_hash" => cacache::copy_hash(cache, &sri_of(req, "sri")?, s(req, "to"))
+        "copy_hash" => cacache::copy_hash(cache, &sri_of(req, "sri")?, pth(req, "to"))
             .await
             .map(|n| json!({"n":n}))
             .map_err(ce),
-        "copy_unchecked" => cacache::copy_unchecked(cache, s(req, "key"), s(req, "to"))
+        "copy_unchecked" => cacache::copy_unchecked(cache, s(req, "key"), pth(req, "to"))
             .await
             .map(|n| json!({"n":n}))
             .map_err(ce),
-        "copy_hash_unchecked" => cacache::copy_hash_unchecked(cache, &sri_of(req, "sri")?, s(req, "to"))
+        "copy_hash_unchecked" => cacache::copy_hash_unchecked(cache, &sri_of(req, "sri")?, pth(req, "to"))
             .await
             .map(|n| json!({"n":n}))
             .map_err(ce),
-        "hard_link" => cacache::hard_link(cache, s(req, "key"), s(req, "to"))
+        "hard_link" => cacache::hard_link(cache, s(req, "key"), pth(req, "to"))
             .await
             .map(|_| json!({}))
             .map_err(ce),
-        "reflink" => cacache::reflink(cache, s(req, "key"), s(req, "to"))
+        "reflink" => cacache::reflink(cache, s(req, "key"), pth(req, "to"))
             .await
             .map(|_| json!({}))
             .map_err(ce),
-        "reflink_hash" => cacache::reflink_hash(cache, &sri_of(req, "sri")?, s(req, "to"))
+        "reflink_hash" => cacache::reflink_hash(cache, &sri_of(req, "sri")?, pth(req, "to"))
             .await
             .map(|_| json!({}))
             .map_err(ce),
-        "reflink_unchecked" => cacache::reflink_unchecked(cache, s(req, "key"), s(req, "to"))
+        "reflink_unchecked" => cacache::reflink_unchecked(cache, s(req, "key"), pth(req, "to"))
             .await
             .map(|_| json!({}))
             .map_err(ce),
@@ -378,16 +396,16 @@ pub async fn exec_async(req: &Value) -> R {
             .map_err(ce),
         "clear" => cacache::clear(cache).await.map(|_| json!({})).map_err(ce),
         "index_insert" => {
-            cacache::index::insert_async(Path::new(cache), s(req, "key"), build_opts(req.get("opts")))
+            cacache::index::insert_async(cache, s(req, "key"), build_opts(req.get("opts")))
                 .await
                 .map(|i| json!({"sri":i.to_string()}))
                 .map_err(ce)
         }
-        "index_find" => cacache::index::find_async(Path::new(cache), s(req, "key"))
+        "index_find" => cacache::index::find_async(cache, s(req, "key"))
             .await
             .map(|m| json!({"entry": m.as_ref().map(meta_json)}))
             .map_err(ce),
-        "index_delete" => cacache::index::delete_async(Path::new(cache), s(req, "key"))
+        "index_delete" => cacache::index::delete_async(cache, s(req, "key"))
             .await
             .map(|_| json!({}))
             .map_err(ce),
